@@ -523,6 +523,23 @@ func c06RunRoute(c *Case) (out string, fails []Fail) {
 		}
 	}
 	fails = append(fails, c06CheckPipes(rec.pipes, "")...)
+	// no phantom pipelines: every pipeline was created for the key values of a record or of an initial id of arity n
+	for _, p := range rec.pipes {
+		ok := false
+		for _, t := range tuples {
+			if c06EqTuple(p.labels, t) {
+				ok = true
+			}
+		}
+		for _, id := range inits {
+			if keys := strings.Split(id, ","); len(keys) == n && c06EqTuple(p.labels, keys) {
+				ok = true
+			}
+		}
+		if !ok {
+			fails = append(fails, Fail{"c06:pipeline-phantom", fmt.Sprintf("pipeline for keys %s (id %q) belongs to no record and no initial id", c06Q(p.labels), p.id)})
+		}
+	}
 	// initial ids (queues found at startup): an id that splits into n key values must have a pipeline for exactly these values
 	for _, id := range inits {
 		keys := strings.Split(id, ",")
